@@ -167,6 +167,8 @@ def execute(record, ctx):
             if sample is None:
                 sample = {'obs': record['obs'], 'agent': list(w['agent'][:3]), 'corrupted_cell': [y, x], 'from': list(w['cells'][y][x]), 'to': list(twin['cells'][y][x]), 'shown': shown}
         elif kind in ('mask', 'monotone', 'stoch'):
+            if not (0 <= anchor[0] < vh and 0 <= anchor[1] < vw):
+                continue
             grid, gt = V.ego_grid(w, area)
             opaque = np.array([[blocks_vision(t if t is not None else ('Hidden',)) for (t, _) in row] for row in gt], dtype=bool)
             pos = Position(*anchor)
